@@ -142,6 +142,35 @@ def barrel_history(r):
     return files, ops, kinds
 
 
+def jsdoc_history(r):
+    """a file with JSDoc descriptions (they reach the emitted validators) edited to texts of exactly the same byte length: a word of a
+    comment replaced, two members swapped, a broken version of the same length in between"""
+    words = ["years", "weeks", "hours", "miles", "units"]
+    w0, w1, w2 = r.sample(words, 3)
+    def model(w, swapped=False, broken=False):
+        m1 = "  /** Age of the user in %s. */\n  age: number;" % w
+        m2 = "  /** Display name, not empty */\n  name: string;"
+        body = (m2 + "\n" + m1) if swapped else (m1 + "\n" + m2)
+        txt = "/** A user of the system. */\nexport interface User {\n%s\n}" % body
+        return txt.replace("interface", "interfac )") if broken else txt
+    where = r.choice(["entry", "module"])
+    if where == "module":
+        files = {"entry.ts": 'import { User } from "./model";\nparse.buildParsers<{ User: User }>();', "model.ts": model(w0)}
+        target = "model.ts"
+        wrap = lambda t: t
+    else:
+        files = {"entry.ts": model(w0) + "\nparse.buildParsers<{ User: User }>();"}
+        target = "entry.ts"
+        wrap = lambda t: t + "\nparse.buildParsers<{ User: User }>();"
+    steps = [model(w1), model(w1, swapped=True), model(w2, broken=True), model(w2), model(w0)]
+    ops, kinds = [["rebuild"]], {}
+    for t in r.sample(steps, r.randrange(2, 5)):
+        text = wrap(t)
+        ops += [["update", target, text], ["rebuild"]]
+        kinds[(target, text)] = "broken" if "interfac )" in text else "valid"
+    return files, ops, kinds
+
+
 def frozen_importer(files, ops_before):
     """at this rebuild some file was created during the session after a file that imports it was last read by the session"""
     disk = dict(files)
@@ -187,7 +216,7 @@ def check(run):
     hist = []
     for i in range(n):
         forced = {0: "broken-then-rebuild", 1: "comment-only", 2: "shifted-diagnostic", 3: "created-module", 4: "created-module-resaved"}.get(i % 6)
-        hist.append(barrel_history(r) if i % 12 == 11 else gen_history(r, forced))
+        hist.append(barrel_history(r) if i % 12 == 11 else jsdoc_history(r) if i % 12 == 5 else gen_history(r, forced))
     known = common.load_known("C14")
     for kf in known:
         w = json.loads(kf["witness"])
